@@ -1,2 +1,130 @@
--- Driver stub for C09 (replaced when the property's model driver is written).
-def main : IO Unit := IO.println "C09: no driver yet"
+import TsVerif.Common.IO
+import TsVerif.C09.Judge
+/-!
+Driver for C09.  `L`/`D` lines: function level, same protocol as Drivers/C13.lean (answers must equal
+those of the unity build `cunit_c13`).  System level (harness/src/bin/c09.rs):
+  `case <cid> <lang>`, `doc <hex>`, `canon` dump `end`,
+  `drive <id> <kind> <param>`, [`map a:b,…`], `tree` dump `end` | `notree`, `rundrive`
+    → `<id> kind=… eq=ok|FAIL … cause=… whole=… streams=…`
+-/
+open TsVerif TsVerif.Lex TsVerif.C09 TsVerif.Utf TsGen
+
+def fmtState (l : Lexer) : String :=
+  s!"{l.pos.bytes},{l.pos.extent.row},{l.pos.extent.column},{l.idx},{l.lookahead},{l.laSize},{if l.eof then 1 else 0}," ++
+  s!"{l.tokStart.bytes},{l.tokStart.extent.row},{l.tokStart.extent.column},{l.tokEnd.bytes},{l.tokEnd.extent.row},{l.tokEnd.extent.column}," ++
+  s!"{l.chunkStart},{l.chunk.length},{if l.colValid then 1 else 0},{l.colValue}"
+
+def runScript (read : Read) (l : Lexer) (ops : List String) : List String :=
+  let rec go (ops : List String) (l : Lexer) (laEnd : Nat) (acc : List String) : List String :=
+    match ops with
+    | [] => acc.reverse
+    | op :: rest =>
+      if op == "S" then let l := l.start read; go rest l laEnd (fmtState l :: acc)
+      else if op == "A" then let l := l.advance read false; go rest l laEnd (fmtState l :: acc)
+      else if op == "K" then let l := l.advance read true; go rest l laEnd (fmtState l :: acc)
+      else if op == "M" then let l := l.markEnd; go rest l laEnd (fmtState l :: acc)
+      else if op == "F" then
+        let (l, e) := l.finish laEnd
+        go rest l e ((fmtState l ++ s!",{e}") :: acc)
+      else if op.startsWith "R:" then
+        match (op.splitOn ":").map natOf with
+        | [_, b, r, c] => let l := l.reset ⟨b, ⟨r, c⟩⟩; go rest l laEnd (fmtState l :: acc)
+        | _ => go rest l laEnd acc
+      else go rest l laEnd acc
+  go ops l 0 []
+
+def runL (line : String) : String :=
+  match line.splitOn " | " with
+  | [head, script] =>
+    match head.splitOn " " with
+    | "L" :: id :: hx :: ch :: _ =>
+      let doc := (if hx == "-" then [] else unhexBytes hx).toArray
+      let l : Lexer := {}
+      let (l, ok) := l.setIncludedRanges []
+      let l := l.setInput
+      let tr := runScript (schemeRead doc ch) l ((script.splitOn " ").filter (· ≠ ""))
+      s!"{id} set={if ok then 1 else 0} trace={";".intercalate tr}"
+    | _ => "? set=BADINPUT"
+  | _ => "? set=BADINPUT"
+
+structure St where
+  cid : String := ""
+  doc : Array Nat := #[]
+  canon : Array String := #[]
+  canonTree : Option TreeDump := none
+  did : String := ""
+  kind : String := ""
+  param : String := ""
+  map : Option (List (Nat × Nat)) := none
+  tree : Array String := #[]
+  hasTree : Bool := false
+  mode : Nat := 0
+
+def hasErr (t : Tree) : Bool := t.data.errorCost > 0 || t.data.isMissing || t.data.symbol == 65535
+
+def parseMap (s : String) : List (Nat × Nat) :=
+  (s.splitOn ",").filterMap fun p =>
+    match p.splitOn ":" with
+    | [a, b] => some (natOf a, natOf b)
+    | _ => none
+
+def runDrive (s : St) : String :=
+  let base := s!"{s.did} kind={s.kind}"
+  match s.canonTree with
+  | none => s!"{base} eq=BADINPUT cause=other"
+  | some canon =>
+    if !s.hasTree then s!"{base} eq=FAIL the drive returned no tree cause=other"
+    else
+      match parseDump s.tree.toList with
+      | none => s!"{base} eq=BADINPUT cause=other"
+      | some t =>
+        let d := diffTree s.map canon.root t.root 0 0
+        let d := match d with
+          | some m => some m
+          | none => if s.map.isNone && !decide (canon.ranges = t.ranges) then some "included ranges of the trees differ" else none
+        match d with
+        | none => s!"{base} eq=ok cause=- nodes={canon.root.size}"
+        | some msg =>
+          if s.kind == "chunk" then
+            -- is this exactly the short-chunk finding?  the chunking violates WholeChar at a character start
+            -- AND the lexer port sees a different character stream under it than with one chunk
+            let text := s.doc.toList
+            let read := schemeRead s.doc s.param
+            let whole := wholeCharOnStarts text read
+            let fuel := text.length + 2
+            let same := decide (lexStream read fuel = lexStream (schemeRead s.doc "w") fuel)
+            let cause := if !whole && !same then "short-chunk-at-char-start" else "other"
+            s!"{base} eq=FAIL {msg} cause={cause} whole={if whole then 1 else 0} streams={if same then 1 else 0}"
+          else
+            -- erroneous inputs: recovery is steered by costs that count skipped BYTES (encoding dependent) and by
+            -- the order in which stack versions are advanced (restarted from version 0 on resume)
+            let err := hasErr canon.root || hasErr t.root
+            let cause := if s.kind == "utf16" && err then "utf16-error-recovery"
+              else if s.kind == "cancel-resume" && err then "resume-error-recovery"
+              else "other"
+            s!"{base} eq=FAIL {msg} cause={cause} err={if err then 1 else 0}"
+
+def step (s : St) (line : String) : IO St := do
+  if s.mode == 1 then
+    if line == "end" then return { s with mode := 0, canonTree := parseDump s.canon.toList }
+    else return { s with canon := s.canon.push line }
+  if s.mode == 2 then
+    if line == "end" then return { s with mode := 0 } else return { s with tree := s.tree.push line }
+  if line.startsWith "L " then IO.println (runL line); return s
+  match line.splitOn " " with
+  | ["D", id, hx] =>
+    let bytes := if hx == "-" then [] else unhexBytes hx
+    let (cp, n) := if bytes.isEmpty then (DECODE_ERROR, 0) else decodeUtf8 bytes
+    IO.println s!"{id} dec={cp},{n}"; return s
+  | ["case", id, _lang] => return { cid := id }
+  | ["doc", h] => return { s with doc := (if h == "-" then [] else unhexBytes h).toArray }
+  | ["canon"] => return { s with mode := 1, canon := #[] }
+  | ["drive", id, kind, param] => return { s with did := id, kind := kind, param := param, map := none, tree := #[], hasTree := false }
+  | ["map", m] => return { s with map := some (parseMap m) }
+  | ["tree"] => return { s with mode := 2, hasTree := true }
+  | ["notree"] => return { s with hasTree := false }
+  | ["rundrive"] => IO.println (runDrive s); return s
+  | _ => return s
+
+def main : IO Unit := do
+  let _ ← foldLines (← IO.getStdin) ({} : St) step
